@@ -433,11 +433,20 @@ func edGenOp(r *Rand, cur *edDirs, work bool) edOp {
 	return edOp{Name: "cleanup"}
 }
 
-func edIsBulk(name string) bool { return name == "setrequire" || name == "setrequiresep" || name == "setuse" }
+func edIsBulk(name string) bool {
+	return name == "setrequire" || name == "setrequiresep" || name == "setuse"
+}
 
 // edGenSession draws a starting file and an op sequence (Cleanup before bulk setters and at the end).
 // It also returns whether at least one op hit an existing line (non-triviality rule).
 func edGenSession(r *Rand, work bool) (file string, ops []edOp, hit bool) {
+	return edGenSessionOpt(r, work, true)
+}
+
+// edGenSessionOpt: cleanupBeforeBulk=false omits the Cleanup the property requires before bulk setters
+// (correspondence only: it drives the implementation into its nil-pointer panic on cleared entries, which the
+// model answers with `panic:<op>`).
+func edGenSessionOpt(r *Rand, work bool, cleanupBeforeBulk bool) (file string, ops []edOp, hit bool) {
 	file = edGenFile(r, work)
 	var start *edDirs
 	if work {
@@ -475,7 +484,7 @@ func edGenSession(r *Rand, work bool) (file string, ops []edOp, hit bool) {
 		if edIsBulk(o.Name) {
 			o.Rev = r.Bool()
 		}
-		if edIsBulk(o.Name) && (len(ops) == 0 || ops[len(ops)-1].Name != "cleanup") {
+		if cleanupBeforeBulk && edIsBulk(o.Name) && (len(ops) == 0 || ops[len(ops)-1].Name != "cleanup") {
 			ops = append(ops, edOp{Name: "cleanup"})
 		}
 		ops = append(ops, o)
